@@ -397,6 +397,12 @@ def specs(quick):
     core = [s for s in singles if s[0] in ("empty", "a", "crlf--", "lookalike-mid", "almost", "tail-cr", "lines", "8192", "boundary-at-chunk-edge") and not s[2]
             and s[1] in (None, "base64") and s[3] == "plain" and s[4] is None]
     out += [("mp", [a, b]) for a in core for b in core]
+    # encoder state must not travel from one part to the next: every ordered pair of (transfer, content) encodings
+    encs = [(e, c) for e in (None, "base64", "quoted-printable") for c in (None, "gzip", "deflate")]
+    for (e1, c1) in encs:
+        for (e2, c2) in encs:
+            if (e1, c1) != (None, None) and (e2, c2) != (None, None) and (e1, c1) != (e2, c2):
+                out.append(("mp", [("lines", e1, c1, "plain", None), ("a", e2, c2, "plain", None)]))
     if not quick:
         small = [s for s in core if s[0] in ("empty", "a", "crlf--", "almost", "tail-cr")]
         out += [("mp", [a, b, c]) for a in small for b in small for c in small]
